@@ -75,6 +75,16 @@ func EncProgs(ps []Prog) string {
 	return strings.Join(s, "/")
 }
 
+// wrapErr wraps a sentinel the way fmt.Errorf("…: %w", err) does: it is not identical to the
+// sentinel, errors.Is / errors.As find it.
+type wrapErr struct {
+	msg string
+	err error
+}
+
+func (w wrapErr) Error() string { return w.msg + ": " + w.err.Error() }
+func (w wrapErr) Unwrap() error { return w.err }
+
 // ErrHandler is what a program with Ret "fail" returns.
 var ErrHandler = errors.New("verif: handler failed")
 
@@ -130,6 +140,16 @@ func Exec(p Prog, t xmlstream.TokenReadEncoder, inv *Invocation) error {
 		return stanza.Error{Type: stanza.Cancel, Condition: stanza.BadRequest}
 	case "streamerr":
 		return stream.PolicyViolation
+	case "wrapeof":
+		return wrapErr{"verif: handler ran out of input", io.EOF}
+	case "wrapueof":
+		return wrapErr{"verif: handler short read", io.ErrUnexpectedEOF}
+	case "wrapstanza":
+		return wrapErr{"verif: handler refuses", stanza.Error{Type: stanza.Cancel, Condition: stanza.BadRequest}}
+	case "wrapstream":
+		return wrapErr{"verif: handler gives up", stream.PolicyViolation}
+	case "joineof":
+		return errors.Join(ErrHandler, io.EOF)
 	}
 	return ErrHandler
 }
@@ -232,11 +252,14 @@ func ErrClass(err error) string {
 	var se stream.Error
 	var ste stanza.Error
 	var syn *xml.SyntaxError
+	var we wrapErr
 	switch {
 	case err == nil:
 		return "clean"
 	case errors.As(err, &se):
 		return "se:" + se.Err
+	case errors.As(err, &we):
+		return "handler"
 	case errors.As(err, &ste):
 		return "handler"
 	case errors.Is(err, ErrHandler), err == io.ErrUnexpectedEOF, strings.Contains(err.Error(), "received IQ with invalid payload"):
